@@ -123,6 +123,7 @@ pub fn family(ctx: &Ctx) -> Vec<ProgCase> {
     v.extend(progs::shapes());
     if ctx.tier == mcx::Tier::Thorough {
         v.extend(progs::p2());
+        v.extend(progs::p2_full());
     }
     v
 }
